@@ -125,7 +125,7 @@ def run(check: Check):
                    node=mu.node)
           continue
         reported = True
-        check.ob('R-PURE', fi, mu.construct, False, f'{mu.how}: {why}', node=mu.node, advisory=advisory)
+        check.ob('R-PURE', fi, mu.construct, False, f'{mu.how}: {why}', node=mu.node, advisory=advisory, exact=True)
       if not reported and id(fi.node) in entry_nodes:
         ff = FuncFlow.of(repo, fi)
         n_writes = sum(1 for n in ff.cfg.nodes if n.ast is not None for x in n.walk()
@@ -140,7 +140,7 @@ def run(check: Check):
       for _, c in ff.calls():
         p = ff.ext(c.func)
         if p and p.startswith(NONDETERMINISM_PREFIXES) and p not in ALLOWED_NONDET:
-          check.ob('R-NONDET', fi, txt(c), False, f'call of {p}: output would depend on hidden global state', node=c)
+          check.ob('R-NONDET', fi, txt(c), False, f'call of {p}: output would depend on hidden global state', node=c, exact=True)
   check.ob('R-NONDET', (algo_mods[0].relpath.rsplit('/', 1)[0] + '/*', '<all functions>'), 'global RNG / clock calls',
            True, f'scanned {n_funcs} functions of algorithms/aggregators/models: none', nontrivial=False)
   # -- frozen dataclasses
